@@ -125,6 +125,35 @@ def run(ctx, rep):
         run_cfg(fx, rep, order, suffix, cfgn)
 
 
+def check_gate_orientation(fx, rep, sfx=''):
+    """every run-time fork gate asks `current spec >= named fork`: in SpecId::enabled(our, other) and
+    our.is_enabled_in(other) the named fork constant is the second operand.  A named fork in the
+    first position with a run-time second operand is the gate turned round (`FORK >= current`)."""
+    from cfg import Origins
+    n = 0
+    for g in fx.fns_all:
+        if '::test' in g.nq or not g.nq.startswith('revm') or g.kind == 'Promoted':
+            continue
+        og = None
+        for bi, t in g.calls():
+            c = t.target_fn or ''
+            if not (c.endswith('SpecId::enabled') or c.endswith('SpecId::is_enabled_in')) or len(t.args) != 2:
+                continue
+            og = og or Origins(g, fx)
+
+            def named(op):
+                oo = og.of_operand(op)
+                return bool(oo) and all((o.root[0] == 'agg' and str(o.root[1]).endswith('SpecId') and not o.path) or
+                                        (o.root[0] == 'const' and o.root[1] is not None and not o.path) for o in oo)
+            n += 1
+            if named(t.args[0]) and not named(t.args[1]):
+                fork = [o.root[2] for o in og.of_operand(t.args[0]) if o.root[0] == 'agg']
+                rep.violation('gate-orientation', g.nq.split('::')[-1] + sfx, '%s tests `%s is enabled in <current spec>` - the gate is reversed (it must ask whether the current spec has reached the fork)' % (g.nq, fork[0] if fork else 'a named fork'), g.where(bi))
+    rep.floor('gate-calls' + sfx, n, 40)
+    if n:
+        rep.ok('gate-orientation', 'all' + sfx, '%d gate calls ask current >= fork' % n)
+
+
 def run_cfg(fx, rep, order, sfx, cfgn):
     si = SpecInfo(fx)
     if not si.ok:
@@ -150,6 +179,7 @@ def run_cfg(fx, rep, order, sfx, cfgn):
 
     # the table builder fills every slot from instruction(i)
     check_table_builder(fx, rep, sfx)
+    check_gate_orientation(fx, rep, sfx)
 
     # handlers of fixed-result opcodes
     for hname, variant in (('revm_interpreter::instructions::control::unknown', 'OpcodeNotFound'),
